@@ -275,7 +275,10 @@ def analyse_tu(src, tier="quick", extra=(), keep_ir=False):
                 if not resid:
                     break
         if resid:
-            for vname, vopt in SRC_VARIANTS:
+            # a TU may name the source variant that suits its code (`// E1-PREFER: <variant>`): it is tried first (order only)
+            m_pref = re.search(r'^// E1-PREFER: (\S+)', open(src).read(), re.M)
+            variants = sorted(SRC_VARIANTS, key=lambda v: 0 if (m_pref and v[0] == m_pref.group(1)) else 1)
+            for vname, vopt in variants:
                 rc, vll, se, _ = compile_tu(src, "prove", tier, extra, workdir, opt=vopt, tag="." + vname)
                 if rc != 0:
                     continue
